@@ -218,12 +218,15 @@ func TestC05Exhaustive(t *testing.T) {
 	f := newFixture(t)
 	// shapes: parent index per block (-1 = genesis); tx: which user sends (shared users create conflicts)
 	shapes := [][]int{
-		{-1, 0, 1, 2},     // linear
-		{-1, 0, -1, 2},    // two branches of 2 from genesis
-		{-1, 0, 1, 0},     // side block from block 0 beside a longer main
-		{-1, -1, 1, 2},    // short main, longer side
-		{-1, 0, 0, 2, 3},  // fork at block 0, side overtakes
-		{-1, 0, -1, 2, 3}, // side from genesis overtakes a main of 2
+		{-1, 0, 1, 2},        // linear
+		{-1, 0, -1, 2},       // two branches of 2 from genesis
+		{-1, 0, 1, 0},        // side block from block 0 beside a longer main
+		{-1, -1, 1, 2},       // short main, longer side
+		{-1, 0, 0, 2, 3},     // fork at block 0, side overtakes
+		{-1, 0, -1, 2, 3},    // side from genesis overtakes a main of 2
+		{-1, 0, 1, -1, 3, 4}, // two branches of 3 from genesis (tie: first seen wins)
+		{-1, 0, 1, 2, 1, 4},  // fork two below the tip, side reaches the same height
+		{-1, 0, 0, 1, 2, 4},  // three tips: the fork at block 0 ends in branches of 3 and 4
 	}
 	count := 0
 	for si, shape := range shapes {
@@ -266,37 +269,67 @@ func TestC05Exhaustive(t *testing.T) {
 			}
 		}
 		gen(0)
-		for pi, perm := range perms {
-			if (count+pi)%nshards != shard {
-				continue
+		// variants: no invalid block, or block `bad` carries a wrong state root (its descendants are re-parented onto
+		// the altered block and are invalid by ancestry). Quick tier: none, the first and the last block; thorough: all.
+		bads := []int{-1, 0, len(shape) - 1}
+		if ev.Thorough() {
+			bads = []int{-1}
+			for i := range shape {
+				bads = append(bads, i)
 			}
-			D, err := vnode.Open(f.spec, "")
-			if err != nil {
-				t.Fatal(err)
-			}
-			D.SwitchTo()
-			var known []*types.Block
-			reorg := false
-			for step, bi := range perm {
-				known = append(known, blocks[bi])
-				before := D.Best()
-				D.AddPeer(blocks[bi])
-				after := D.Best()
-				if !bytes.Equal(before.BlockHash(), after.BlockHash()) && !isAncestor(D, before, after) {
-					reorg = true
-				}
-				if err := D.CheckChainInvariants(f.gen.BlockHash(), known); err != nil {
-					D.Remove()
-					path := rec.WriteReplay(fmt.Sprintf("c05-exhaustive-shape%d-perm%d.json", si, pi), map[string]interface{}{"shape": shape, "order": perm, "step": step})
-					t.Fatalf("shape %v, arrival order %v, after arrival %d: %v (replay %s)", shape, perm, step, err, path)
-				}
-			}
-			D.Remove()
-			nontrivial := reorg || perm[0] != 0
-			rec.Case(fmt.Sprintf("shape%d", si), fmt.Sprintf("%v|%v", shape, perm), nontrivial, func() interface{} {
-				return map[string]interface{}{"shape(parent of each block)": shape, "arrival order": perm}
-			})
 		}
-		count += len(perms)
+		for _, bad := range bads {
+			deliv := make([]*types.Block, len(shape))
+			invalid := map[string]bool{}
+			for i, par := range shape {
+				deliv[i] = blocks[i]
+				if par >= 0 && invalid[string(deliv[par].BlockHash())] {
+					deliv[i] = vnode.Reparent(blocks[i], deliv[par])
+					invalid[string(deliv[i].BlockHash())] = true
+				}
+				if i == bad {
+					deliv[i] = vnode.WithStateRootFlipped(deliv[i])
+					invalid[string(deliv[i].BlockHash())] = true
+				}
+			}
+			for pi, perm := range perms {
+				if (count+pi)%nshards != shard {
+					continue
+				}
+				D, err := vnode.Open(f.spec, "")
+				if err != nil {
+					t.Fatal(err)
+				}
+				D.SwitchTo()
+				var known []*types.Block
+				reorg := false
+				for step, bi := range perm {
+					known = append(known, deliv[bi])
+					before := D.Best()
+					D.AddPeer(deliv[bi])
+					after := D.Best()
+					if !bytes.Equal(before.BlockHash(), after.BlockHash()) && !isAncestor(D, before, after) {
+						reorg = true
+					}
+					fail := func(msg string) {
+						D.Remove()
+						path := rec.WriteReplay(fmt.Sprintf("c05-exhaustive-shape%d-bad%d-perm%d.json", si, bad, pi), map[string]interface{}{"shape": shape, "invalid block": bad, "order": perm, "step": step})
+						t.Fatalf("shape %v (block %d with a wrong state root), arrival order %v, after arrival %d: %s (replay %s)", shape, bad, perm, step, msg, path)
+					}
+					if invalid[string(after.BlockHash())] {
+						fail("the best block is an invalid block or built on one")
+					}
+					if err := D.CheckChainInvariants(f.gen.BlockHash(), known); err != nil {
+						fail(err.Error())
+					}
+				}
+				D.Remove()
+				nontrivial := reorg || perm[0] != 0 || bad >= 0
+				rec.Case(fmt.Sprintf("shape%d", si), fmt.Sprintf("%v|%d|%v", shape, bad, perm), nontrivial, func() interface{} {
+					return map[string]interface{}{"shape(parent of each block)": shape, "block with a wrong state root (-1: none)": bad, "arrival order": perm}
+				})
+			}
+			count += len(perms)
+		}
 	}
 }
